@@ -141,10 +141,10 @@ Definition print_cname (c : cname) : str :=
 Definition alt := (option relop * str)%type.
 Definition print_alt (a : alt) : str :=
   match fst a with
-  | Some op => relop_text op ++ lit " " ++ snd a
+  | Some op => relop_text op ++ " "%char :: snd a
   | None => snd a
   end.
-Definition print_expr (l : list alt) : str := join_str (lit " || ") (map print_alt l).
+Definition print_expr (l : list alt) : str := join_str (" "%char :: s_barbar ++ [" "%char]) (map print_alt l).
 
 Definition alt_holds (v : str) (a : alt) : bool :=
   rel (match fst a with Some op => op | None => REq end) (key_compare (key v) (key (snd a))).
